@@ -31,6 +31,17 @@ def header(c):
     return tuple((f, getattr(c, f)) for f in HEADER if hasattr(c, f))
 
 
+def header_rec(c, prefix=""):
+    """Header fields of c and, recursively, of every code object in its constant table."""
+    out = [(prefix + f, v) for f, v in header(c)]
+    n = 0
+    for k in c.co_consts:
+        if hasattr(k, "co_code"):
+            out.extend(header_rec(k, prefix + "nested."))
+            n += 1
+    return out
+
+
 def alter(c, alt):
     """Apply one alteration; returns new code object or None when CPython refuses to build it."""
     kw = {}
@@ -51,6 +62,25 @@ def alter(c, alt):
         kw[a], kw[b] = getattr(c, b), getattr(c, a)
         if kw[a] == getattr(c, a):
             return None
+    elif kind == "nested":
+        consts = list(c.co_consts)
+        idxs = [i for i, k in enumerate(consts) if hasattr(k, "co_code")]
+        if not idxs:
+            return None
+        i = idxs[alt[1] % len(idxs)]
+        k = consts[i]
+        field = alt[2]
+        try:
+            if field == "co_filename":
+                k2 = replace_code(k, co_filename=k.co_filename + ".other")
+            elif field == "co_name":
+                k2 = replace_code(k, co_name=k.co_name + "_zz")
+            else:
+                k2 = replace_code(k, co_firstlineno=k.co_firstlineno + 7)
+        except (ValueError, TypeError):
+            return None
+        consts[i] = k2
+        kw["co_consts"] = tuple(consts)
     elif kind == "varname":
         vs = list(c.co_varnames)
         if alt[1] >= len(vs) or vs[alt[1]] == alt[2]:
@@ -64,7 +94,7 @@ def alter(c, alt):
     else:
         raise ValueError(alt)
     for k, v in kw.items():
-        if k != "co_flags" and isinstance(v, int) and v < 0:
+        if k != "co_flags" and isinstance(v, int) and not isinstance(v, bool) and v < 0:
             return None
     try:
         return replace_code(c, **kw)
@@ -86,6 +116,8 @@ def alt_class(alt, known_bits):
         return "count:" + alt[1]
     if kind == "swap":
         return "swap:%s/%s" % (alt[1], alt[2])
+    if kind == "nested":
+        return "nested:" + alt[2]
     if kind == "varname":
         return "varname:empty" if alt[2] == "" else "varname:duplicate"
     return "combo"
@@ -102,10 +134,15 @@ def judge(c2):
     out2 = sched._outcome(lambda: data.to_code())
     if out2[0] != "ok":
         return "lossy", "to_code-raises:" + out2[1]
-    h1, h2 = header(c2), header(out2[1])
+    h1, h2 = header_rec(c2), header_rec(out2[1])
     if h1 == h2:
         return "exact", None
-    diff = [a[0] for a, b in zip(h1, h2) if a != b]
+    if len(h1) != len(h2):
+        return "lossy", "nested-code-count"
+    diff = []
+    for a, b in zip(h1, h2):
+        if a != b and a[0] not in diff:
+            diff.append(a[0])
     return "lossy", ",".join(diff)
 
 
@@ -148,6 +185,10 @@ def alterations_for(c, rng, known_bits, n_masks, n_combo):
         j = rng.randint(np_, len(c.co_varnames) - 1)
         alts.append(("varname", j, c.co_varnames[rng.randint(0, j - 1)]))
         alts.append(("varname", j, c.co_varnames[np_ - 1]))
+    # a header field of a NESTED code object altered (the parent's own header is untouched)
+    if any(hasattr(k, "co_code") for k in c.co_consts):
+        for field in ("co_filename", "co_name", "co_firstlineno"):
+            alts.append(("nested", rng.randint(0, 20), field))
     # both function flags cleared at once (a single-bit flip never reaches the non-function branch with arguments)
     if (c.co_flags & 3) == 3:
         alts.append(("flag-mask", 3))
@@ -240,6 +281,7 @@ def run_store(seed, tree, tier, known, keep_sample=False):
     n_masks = 6 if tier == "quick" else 16
     n_combo = 4 if tier == "quick" else 12
     sample = None
+    remembered = []
     for idx in idxs:
         c = cos[idx]
         base_digest = fp.digest(fp.code_fp(c))
@@ -255,6 +297,8 @@ def run_store(seed, tree, tier, known, keep_sample=False):
             n_ok += 1
             cls = alt_class(alt, known_bits)
             verdict, loc = judge(c2)
+            if len(remembered) < 8 and verdict != "lossy" and (verdict.startswith("raises") or rng.chance(0.05)):
+                remembered.append((idx, alt, c2, verdict))
             res["classes"][cls] = res["classes"].get(cls, 0) + 1
             vk = verdict.split(":")[0]
             res["verdicts"][vk] = res["verdicts"].get(vk, 0) + 1
@@ -288,6 +332,15 @@ def run_store(seed, tree, tier, known, keep_sample=False):
             break
     if pairs and (tier != "quick" or rng.chance(0.3)):
         interrupted_history(pairs, res, prog if "src" in prog else dict(prog), optimize)
+        # verdicts reached BEFORE the interruptions must still be reached after them
+        for idx, alt, c2, verdict in remembered:
+            again, loc = judge(c2)
+            res["rejudged_after_interruptions"] = res.get("rejudged_after_interruptions", 0) + 1
+            if again.split(":")[0] != verdict.split(":")[0]:
+                res["violations"].append({"property": "C11", "fingerprint": "C11/H2-verdict-changed-after-interrupted-call/%s/%s->%s" % (alt_class(alt, known_bits), verdict.split(":")[0], again.split(":")[0]),
+                                          "invariant": "H2-verdict-changed-after-interrupted-call", "alteration": list(alt), "object_index": idx, "prog": prog if "src" in prog else dict(prog),
+                                          "optimize": optimize, "history": True})
+                break
     if sample:
         res["sample"] = sample
     return res
